@@ -5,9 +5,12 @@ from . import epnames, pgschema, schema_core, toc, tocread, tocreg, wrappers
 def build(reg):
     specs = toc.add_toc(reg) + tocreg.add_tocreg(reg) + schema_core.build_c20_schema(reg) + wrappers.add_destroy(reg) + epnames.add_stored(reg) + tocread.add_tocread(reg) + tocread.add_tocread2(reg)  # (and: an object's schema is read back from its node name); a meta-less copy must not unregister what the originals still use
     specs += [x for x in pgschema.add_pgschema(reg) if 'C20' in x.props]  # the parent chain that gets embedded as 'compat'
+    from . import oneliners
+
+    specs = specs + oneliners.add_oneliners(reg, props=("C20",))  # one- and two-line delegations, verified against what other contracts bind them to
     return {
         "verify": specs,
         "lemmas": [],
-        "trusted": pgschema.T_PGS + tocread.T_TOCREAD + [toc.T_PLUGIN] + tocreg.T_TOCREG + tocreg.T_PLUGINSYS,
+        "trusted": oneliners.T_ONE + pgschema.T_PGS + tocread.T_TOCREAD + [toc.T_PLUGIN] + tocreg.T_TOCREG + tocreg.T_PLUGINSYS,
         "assumptions": ["JSON-Schema generation (schema_json) and validation of stored objects against it are pydantic's / jsonschema's and checked bounded"],
     }
